@@ -453,6 +453,7 @@ var c06Directed = []string{
 	"for q in ([1,2] > [3]) {\ncontinue\n}", "for q in 1 {\nbreak\n}", "for [a, b] in [1] {\n}", "for [a, b] in [[1]] {\n}", "for [a, b] in {1:2} {\n}", "for a in fn {\n}",
 	"for a in range(0) {\n}", "for a in range(1, 0, -1) {\n}", "for a in range(0, 1, 0.5) {\n}", "if null {\n}", "if [1] {\n} elif {} {\n}",
 	"func f(a, b=1) {\nreturn a + b\n}\nf()", "func f(a) {\nreturn a\n}\nf(1, 2, 3)", "return 1", "break", "continue", "let a := a", "[a, b] := [1]", "[a, b] := 1", "[a, b] := null",
+	"a := {\"k\": 1}\na.super := [a]\no := new(a)", "a := {\"init\": fn}\nb := {\"super\": [a]}\na.super := [b]\nnew(b, 1)",
 	"new()", "new(1)", "new({})", "new({\"super\": 1})", "new({\"super\": [1, null, {}]})", "new({\"init\": 1})", "new({\"init\": fn}, 1, 2)",
 	"o := new({\"init\": fn, \"super\": [{\"init\": fn}]})\no.init()", "doc(null)", "doc(1)", "doc(fn)", "doc(len)", "doc(x.mark)", "doc([1][0])",
 	"type(fn)", "type(len)", "-fn", "not fn", "fn + fn", "fn == fn", "fn in [fn]", "fn like fn", "1 like \"(\"", "\"a\" like \"a\"", "1e+300 * 1e+300 // 0", "(0/0) % 1", "(1/0) % 1", "1 % (0/0)",
